@@ -241,11 +241,26 @@ async fn run_session<T: RequestHandler>(
     socket: tokio::net::TcpStream,
     addr: SocketAddr,
     mut handler: TcpServerConnectionHandler,
-    decode: DecodeLevel,
+    mut decode: DecodeLevel,
     handlers: ServerHandlerMap<T>,
-    commands: tokio::sync::mpsc::Receiver<ServerCommand>,
+    mut commands: tokio::sync::mpsc::Receiver<ServerCommand>,
 ) {
-    match handler.handle(socket).await {
+    // the (TLS) handshake may never complete: while it is pending, the session must still end when
+    // it is evicted (sender dropped) or the server shuts down, and must not lose a level change
+    let res = {
+        let handshake = handler.handle(socket);
+        tokio::pin!(handshake);
+        loop {
+            tokio::select! {
+                res = &mut handshake => break res,
+                cmd = commands.recv() => match cmd {
+                    None | Some(ServerCommand::Shutdown) => return,
+                    Some(ServerCommand::ChangeDecoding(level)) => decode = level,
+                },
+            }
+        }
+    };
+    match res {
         Err(err) => {
             tracing::warn!("error from {}: {}", addr, err);
         }
